@@ -31,9 +31,9 @@ CONSTANTS Msgs,        \* message ids 1..n
                        \* falls back to the tables that exist, the encoder (which does not) refuses
           TgLimit, CompMax, MaxLen
 
-VARIABLES tg, comp, objs, lenient, resolved, failed, hist
-vars == <<tg, comp, objs, lenient, resolved, failed, hist>>
-View == <<tg, comp, objs, lenient, resolved, failed>>
+VARIABLES tg, comp, objs, lenient, resolved, failed, metaonly, hist
+vars == <<tg, comp, objs, lenient, resolved, failed, metaonly, hist>>
+View == <<tg, comp, objs, lenient, resolved, failed, metaonly>>
 
 (* lenient: the coder object has been used with expected values not enforced - a per-call option that must leave
    nothing behind, which is why the model keeps it as state: every operation is exercised before AND after it *)
@@ -41,7 +41,7 @@ View == <<tg, comp, objs, lenient, resolved, failed>>
    "strict" = encoder) - again state that must not exist, kept so that both orders are exercised *)
 (* failed: the messages whose decode has failed already - a failure must leave nothing behind (a template remembered before it was
    built, a half-filled cache entry), so the same failing message is tried again and every other operation is exercised after it *)
-Init == tg = <<>> /\ comp = {} /\ objs = {} /\ lenient = FALSE /\ resolved = "none" /\ failed = {} /\ hist = <<>>
+Init == tg = <<>> /\ comp = {} /\ objs = {} /\ lenient = FALSE /\ resolved = "none" /\ failed = {} /\ metaonly = FALSE /\ hist = <<>>
 
 Has(s, x) == \E i \in 1..Len(s) : s[i] = x
 (* loading a table group: drop the most recent entries until there is room, then insert *)
@@ -56,23 +56,27 @@ Compile(t, k) ==
 Step(op, m) == hist' = Append(hist, [op |-> op, m |-> m]) /\ Len(hist) < MaxLen
 
 Decode(m) == /\ m \in Msgs \ Bad /\ Step("decode", m)
-             /\ tg' = Load(KeyOf[m]) /\ comp' \in Compile(TmplOf[m], KeyOf[m]) /\ objs' = objs \cup {m} /\ UNCHANGED <<lenient, failed>>
+             /\ tg' = Load(KeyOf[m]) /\ comp' \in Compile(TmplOf[m], KeyOf[m]) /\ objs' = objs \cup {m} /\ UNCHANGED <<lenient, failed, metaonly>>
              /\ resolved' = IF m \in Strict /\ resolved = "none" THEN "forgiving" ELSE resolved
 DecodeFails(m) == /\ m \in Bad /\ Step("decode_fails", m)
-                  /\ tg' = Load(KeyOf[m]) /\ failed' = failed \cup {m} /\ UNCHANGED <<comp, objs, lenient, resolved>>
+                  /\ tg' = Load(KeyOf[m]) /\ failed' = failed \cup {m} /\ UNCHANGED <<comp, objs, lenient, resolved, metaonly>>
 (* the damaged message decoded with expected values not enforced (ignore_value_expectation): it succeeds; the option
    belongs to that call only - afterwards the same coder must refuse the message again *)
 DecodeLenient(m) == /\ m \in Bad /\ Step("decode_ive", m)
-                    /\ m \in Lenient /\ tg' = Load(KeyOf[m]) /\ lenient' = TRUE /\ UNCHANGED <<comp, objs, resolved, failed>>
+                    /\ m \in Lenient /\ tg' = Load(KeyOf[m]) /\ lenient' = TRUE /\ UNCHANGED <<comp, objs, resolved, failed, metaonly>>
 Encode(m) == /\ m \in Msgs \ (Bad \cup Strict) /\ Step("encode", m)
-             /\ tg' = Load(KeyOf[m]) /\ comp' \in Compile(TmplOf[m], KeyOf[m]) /\ UNCHANGED <<objs, lenient, resolved, failed>>
+             /\ tg' = Load(KeyOf[m]) /\ comp' \in Compile(TmplOf[m], KeyOf[m]) /\ UNCHANGED <<objs, lenient, resolved, failed, metaonly>>
 (* the encoder is asked for an identification whose tables are not all there: refused, nothing is loaded *)
 EncodeRefused(m) == /\ m \in Strict /\ Step("encode", m)
                     /\ resolved' = IF resolved = "none" THEN "strict" ELSE resolved
-                    /\ UNCHANGED <<tg, comp, objs, lenient, failed>>
-Use(op, m) == /\ m \in objs /\ Step(op, m) /\ UNCHANGED <<tg, comp, objs, lenient, resolved, failed>>
+                    /\ UNCHANGED <<tg, comp, objs, lenient, failed, metaonly>>
+(* a metadata-only decode on the same coder object: another per-call option (like the lenient decode) that must leave nothing
+   behind - kept as state so that every operation is exercised before and after it *)
+Info(m) == /\ m \in Msgs \ Strict /\ Step("info", m)
+           /\ metaonly' = TRUE /\ UNCHANGED <<tg, comp, objs, lenient, resolved, failed>>
+Use(op, m) == /\ m \in objs /\ Step(op, m) /\ UNCHANGED <<tg, comp, objs, lenient, resolved, failed, metaonly>>
 
-Next == \E m \in Msgs : Decode(m) \/ DecodeFails(m) \/ DecodeLenient(m) \/ Encode(m) \/ EncodeRefused(m) \/ Use("query", m) \/ Use("render", m) \/ Use("rewire", m)
+Next == \E m \in Msgs : Decode(m) \/ DecodeFails(m) \/ DecodeLenient(m) \/ Info(m) \/ Encode(m) \/ EncodeRefused(m) \/ Use("query", m) \/ Use("render", m) \/ Use("rewire", m)
 
 SizeBounded == Len(tg) <= TgLimit /\ (CompMax >= 0 => Cardinality(comp) <= CompMax)
 NoDuplicateKeys == \A i, j \in 1..Len(tg) : tg[i] = tg[j] => i = j
